@@ -7,7 +7,8 @@ import hashlib, json, os, re, subprocess, sys, time, traceback
 
 VERIF = os.path.dirname(os.path.dirname(os.path.abspath(__file__)))
 LEAN = os.path.join(VERIF, 'lean')
-DRIVER = os.path.join(LEAN, '.lake', 'build', 'bin', 'driver')
+def driver_path(prop):
+    return os.path.join(LEAN, '.lake', 'build', 'bin', 'driver_' + prop.lower())
 EVID = os.path.join(VERIF, 'evidence')
 REPLAYS = os.path.join(EVID, 'replays')
 ALLOWED_AXIOMS = {'propext', 'Classical.choice', 'Quot.sound'}
@@ -147,8 +148,8 @@ def audit(prop, modules):
     return names, ax, problems
 
 
-def run_driver(lines):
-    p = subprocess.run([DRIVER], input='\n'.join(lines) + '\n', stdout=subprocess.PIPE,
+def run_driver(prop, lines):
+    p = subprocess.run([driver_path(prop)], input='\n'.join(lines) + '\n', stdout=subprocess.PIPE,
                        stderr=subprocess.PIPE, text=True)
     if p.returncode != 0:
         raise RuntimeError('driver failed: ' + p.stderr[-2000:])
@@ -172,10 +173,17 @@ def exc_name(e):
 
 # --------------------------------------------------------------------------- known findings
 def load_known():
+    """known_findings.json plus per-property fragments known_findings.d/*.json (same format)"""
+    res = []
     p = os.path.join(VERIF, 'known_findings.json')
-    if not os.path.exists(p):
-        return []
-    return json.load(open(p)).get('findings', [])
+    if os.path.exists(p):
+        res += json.load(open(p)).get('findings', [])
+    d = os.path.join(VERIF, 'known_findings.d')
+    if os.path.isdir(d):
+        for f in sorted(os.listdir(d)):
+            if f.endswith('.json'):
+                res += json.load(open(os.path.join(d, f))).get('findings', [])
+    return res
 
 
 def match_known(prop, sig, known):
